@@ -104,6 +104,7 @@ class World:
         self.peer_cfg = peer_view(scenario)   # what the SERVER's reply said about permessage-deflate, parsed here (not by lomond)
         self.calls = []     # one entry per application call: [trace position, kind, result, wire tokens]
         self.raw = []       # every byte string `sendall` accepted, verbatim (C06 inflates the compressed frames itself)
+        self.wire = []      # one entry per `sendall` ATTEMPT: dict(k=write index, pos=trace length at the call, data=<hex handed to sendall>, acc=<bytes the socket took>, err=None | errno | 'none' | 'timeout')
 
     def log(self, tok):
         if self.recording:
@@ -140,6 +141,13 @@ class FakeSocket:
         w.write_ctr += 1
         data = bytes(data)
         if k in w.sc.wfail:
+            # how much of the data the socket had taken when the failure was reported (sendall gives the caller no way to know):
+            # optional scenario attribute `wpart` {write index: n}; n >= 0 counted from the start, n < 0 from the end (-1: all but one
+            # byte); absent: nothing (the behaviour before the attribute existed).  Not part of the trace (the token stays WF:<data>).
+            part = (getattr(w.sc, 'wpart', None) or {}).get(k, 0)
+            acc = max(0, min(len(data) - 1, part if part >= 0 else len(data) + part)) if data else 0
+            w.wire.append(dict(k=k, pos=len(w.trace), data=data.hex(), acc=acc,
+                               err=w.sc.werrno if isinstance(w.sc.werrno, (int, str)) and w.sc.werrno not in (0, '') else 'none'))
             # a compressed data frame that never reaches the peer: its zlib bytes are not canonical (the model has none)
             z = len(data) >= 2 and (data[0] & 0x40) and (data[0] & 0x0f) in (1, 2) and (w.peer_cfg is not None) and not (w.peer_cfg == 'code' and w.deflate_cfg is None)
             w.log('WF:' if z else 'WF:' + data.hex())
@@ -153,7 +161,12 @@ class FakeSocket:
                     pass
             if w.sc.werrno == 104:
                 self.reset = True
+            if w.sc.werrno == 'timeout':      # a socket with a timeout (lomond sets 30 s): socket.timeout, no errno
+                raise socket.timeout('timed out')
+            if not w.sc.werrno:               # socket.error raised with a message only (errno None)
+                raise socket.error('simulated write failure' + HOSTILE)
             raise socket.error(w.sc.werrno, 'simulated write failure' + HOSTILE)
+        w.wire.append(dict(k=k, pos=len(w.trace), data=data.hex(), acc=len(data), err=None))
         w.raw.append(data)
         w.log(w.canon_write(data))
 
